@@ -10,6 +10,7 @@ From Coq Require Import List ZArith NArith Bool Permutation.
 From Tele Require Import Lib.Bytes Lib.BytesN Gen.Consts Gen.GoFns Model.DecodeStack Model.Layout Model.LayoutMulti Model.LayoutRef
   Model.Parse Proofs.LayoutArith Proofs.LayoutRead Proofs.LayoutWrite Proofs.WriterFacts
   Proofs.WriterInv Proofs.ParseFacts Proofs.EncodeFacts Proofs.FormatExtras Proofs.GoFnsLayout Proofs.MultiFacts.
+From Tele Require Model.FileConc Proofs.FileConcInv Proofs.FileConcThms.
 Import ListNotations.
 Open Scope N_scope.
 
@@ -194,6 +195,35 @@ Theorem C10_racing_creation : forall meta h, meta_ok meta -> mapped_header meta 
                 forall k v, In (k, v) (pairs rs) <-> m k = Some v).
 Proof. exact race_ok. Qed.
 Print Assumptions C10_racing_creation.
+
+(* ---- several writers, every interleaving of their atomic operations (cited
+   from C04; Model/FileConc.v is the transition system of lookup, the remap
+   loop, place, the limit CAS, extend, writeEntryAt and the link loop with its
+   duplicate walk at one program point per atomic operation, which refines the
+   file-system-call granularity of Model/LayoutRace.v that the race cases of
+   vh_layout replay): at every reachable state of every schedule, from any
+   well-formed file, for any number of processes, names and hash function,
+   a name has at most one linked record, and no step of any process decreases
+   the allocation limit, the file size or a value. *)
+Theorem C10_several_writers_one_record_per_name : forall bucket nlen H st0 sched,
+  FileConcInv.init_ok bucket nlen H st0 ->
+  let f := fst (FileConc.run bucket nlen H sched st0) in
+  forall b1 b2 o1 o2 nm, In o1 (FileConc.f_chain f b1) -> In o2 (FileConc.f_chain f b2) ->
+    FileConcInv.name_at f o1 = Some nm -> FileConcInv.name_at f o2 = Some nm -> b1 = b2 /\ o1 = o2.
+Proof. exact FileConcThms.one_record_per_name. Qed.
+Print Assumptions C10_several_writers_one_record_per_name.
+
+Theorem C10_several_writers_limit_monotone : forall bucket nlen H st0 sched i,
+  FileConcInv.init_ok bucket nlen H st0 ->
+  let st := FileConc.run bucket nlen H sched st0 in
+  let st' := FileConc.step bucket nlen H st i in
+  FileConc.f_size (fst st) <= FileConc.f_size (fst st') /\
+  FileConc.f_limit (fst st) <= FileConc.f_limit (fst st') /\
+  forall o r, FileConc.find_rec o (FileConc.f_recs (fst st)) = Some r ->
+    exists r', FileConc.find_rec o (FileConc.f_recs (fst st')) = Some r' /\
+               FileConc.r_name r' = FileConc.r_name r /\ FileConc.r_val r <= FileConc.r_val r'.
+Proof. exact FileConcThms.monotone. Qed.
+Print Assumptions C10_several_writers_limit_monotone.
 
 (* a well-formed file never makes a valid operation fail (no "corrupt", no
    endless extension): names of 1..4096 bytes get their record *)
